@@ -18,7 +18,7 @@ RULE = (
     "class of pi(a) in pi(G) == class of a in G; (ii) atoms of one class share (Z, mass, rad) and "
     "the multiset of neighbour classes (equitable); (iii) every automorphism found by an own "
     "individualisation-refinement search (<=200 per case, each verified) maps every atom into its "
-    "own class. Coarsest-ness is not demanded. Non-trivial = some colour class of the initial "
+    "own class. The same oracles run on EVERY coloured graph with n<=5 (quick) / n<=6 (thorough) atoms over 3 colours. Coarsest-ness is not demanded. Non-trivial = some colour class of the initial "
     "colouring is split by refinement, or a non-trivial automorphism exists; distinct by case digest."
 )
 MANIFEST = {
@@ -122,3 +122,32 @@ def check(case, stats):
         stats.label("nontrivial_automorphism")
     if split or nontrivial_aut:
         stats.mark_nontrivial(case_digest(case), {"mol": mol.brief(), "classes": len(set(cls)), "rounds": rounds, "automorphisms_checked": len(auts)})
+
+
+def smallscope_fn(mol):
+    from ..runner import Stats
+
+    n = mol.n
+    check({"mol": mol.to_json(), "pi": list(reversed(range(n))), "order": list(range(n)), "post": "none"}, Stats())
+    return 2
+
+
+def replay_extra(rec, stats):
+    if "smallscope" in rec["case"]:
+        smallscope_fn(Mol.from_json(rec["case"]["smallscope"]))
+    else:
+        check(rec["case"], stats)
+
+
+def extra(ctx):
+    """Small-scope exhaustive sweep: equitability, closure under ALL automorphisms and
+    independence of a reversal of the numbering, for every coloured graph below the bound."""
+    from .. import smallscope
+    from ..runner import Stats
+
+    nmax, ncol = (5, 3) if ctx["tier"] == "quick" else (6, 3)
+    classes, evals, fails = smallscope.sweep(__name__, "smallscope_fn", nmax, ncol)
+    stats = Stats()
+    stats.evaluated(evals)
+    stats.label("smallscope_classes", classes)
+    return {"failures": fails, "stats": stats.dump(), "info": {"smallscope": f"partition oracles on all {classes} coloured graphs with n<={nmax} over {ncol} colours"}}
